@@ -3164,7 +3164,7 @@ fn apply_relocation<
             .value()
             .wrapping_add(addend as u64)
             .wrapping_add(bias)
-            .sub(layout.tls_start_address()),
+            .wrapping_sub(layout.tls_start_address()),
         RelocationKind::DtpOff => resolution
             .value()
             .wrapping_add(addend as u64)
